@@ -102,6 +102,8 @@ class C04(Prop):
             kind, b, xtrue = got
             wk = rng.choice(["one", "receptor", "sample"])
             w = [1.0] * m if wk == "one" else [rng.randint(1, 12) / 4 for _ in range(m)]
+            if wk != "one" and rng.random() < 0.25:
+                w = [float(rng.randint(4, 16)) for _ in range(m)]        # importance weights of order ten: weighted residuals of several hundred for far targets
             entry = rng.choice(["estimator.fit", "estimator.fit", "lsq_linear"])
             acc = rng.choice(["default", "default", "high"])
             cases.append({"sys": {k: (v.tolist() if isinstance(v, np.ndarray) else v) for k, v in sys.items()},
